@@ -50,50 +50,13 @@ type scenario struct {
 	RoIn  bool     `json:"roIn"`
 }
 
-type viewRec struct {
-	D  string `json:"d"`
-	M  []int  `json:"m"`
-	RO bool   `json:"ro"`
-	O  int    `json:"o"`
-}
-
-type event struct {
-	Ev    string    `json:"ev"`
-	ID    *int      `json:"id,omitempty"`
-	Sig   string    `json:"sig,omitempty"`
-	Via   string    `json:"via,omitempty"`
-	N     *int      `json:"n,omitempty"`
-	Mut   []bool    `json:"mut,omitempty"`
-	Fail  []bool    `json:"fail,omitempty"`
-	RoIn  *bool     `json:"roIn,omitempty"`
-	Adv   *bool     `json:"adv,omitempty"`
-	Sent  []string  `json:"sent,omitempty"`
-	Pre   [][]int   `json:"pre,omitempty"`
-	Decl  *bool     `json:"decl,omitempty"`
-	O     *int      `json:"o,omitempty"`
-	C     *int      `json:"c,omitempty"`
-	K     *int      `json:"k,omitempty"`
-	P     *bool     `json:"p,omitempty"`
-	IsNil *bool     `json:"isnil,omitempty"`
-	Has   *[]int    `json:"has,omitempty"`
-	V     []viewRec `json:"v"`
-	Crash string    `json:"crash,omitempty"`
-	Stray []int     `json:"stray,omitempty"`
-	Order []int     `json:"order,omitempty"`
-}
-
 type capser interface {
 	Capabilities() consumer.Capabilities
 }
 
 // sigOps is everything the driver needs to know about one signal.
 type sigOps[T any, C capser] struct {
-	name    string
-	build   func(variant int) T
-	bytes   func(T) []byte
-	mutate  func(T, string, int)
-	isRO    func(T) bool
-	markRO  func(T)
+	base    baseOps[T]
 	newCons func(func(context.Context, T) error, bool) C
 	fanout  func([]C) C
 	router  func(map[pipeline.ID]C) (C, func(...pipeline.ID) (C, error))
@@ -102,68 +65,12 @@ type sigOps[T any, C capser] struct {
 }
 
 type runState[T any, C capser] struct {
-	ops      sigOps[T, C]
+	*recorder[T]
 	sc       scenario
-	out      *json.Encoder
-	src      T
-	handles  []*T  // 1..n, nil until delivered
 	returned []bool
-	nmut     []int
 	asyncDue []bool
-	objs     map[uintptr]int
 	order    []int
 	stray    []int
-}
-
-func (st *runState[T, C]) objID(x T) int {
-	p := origPtr(any(x))
-	if id, ok := st.objs[p]; ok {
-		return id
-	}
-	id := len(st.objs)
-	st.objs[p] = id
-	return id
-}
-
-func (st *runState[T, C]) viewOf(x T) viewRec {
-	b := st.ops.bytes(x)
-	return viewRec{D: digest(b), M: markersIn(b), RO: st.ops.isRO(x), O: st.objID(x)}
-}
-
-func (st *runState[T, C]) views() []viewRec {
-	vs := make([]viewRec, st.sc.N+1)
-	vs[0] = st.viewOf(st.src)
-	for c := 1; c <= st.sc.N; c++ {
-		if st.handles[c] != nil {
-			vs[c] = st.viewOf(*st.handles[c])
-		} else {
-			vs[c] = viewRec{D: "-", M: []int{}, O: -1}
-		}
-	}
-	return vs
-}
-
-func (st *runState[T, C]) emit(e event) {
-	e.V = st.views()
-	if err := st.out.Encode(e); err != nil {
-		panic(err)
-	}
-}
-
-// mutateVia writes marker 10*c+k through consumer c's own handle; a pdata read-only panic is recovered.
-func (st *runState[T, C]) mutateVia(c int) {
-	st.nmut[c]++
-	k := st.nmut[c]
-	panicked := func() (p bool) {
-		defer func() {
-			if r := recover(); r != nil {
-				p = true
-			}
-		}()
-		st.ops.mutate(*st.handles[c], markerString(10*c+k), k)
-		return false
-	}()
-	st.emit(event{Ev: "mutate", C: &c, K: &k, P: &panicked})
 }
 
 // runDue performs the asynchronous mutations that are due: "next" ones at every hook, all at the end.
@@ -182,10 +89,8 @@ func (st *runState[T, C]) onConsume(c int, d T) error {
 		return nil
 	}
 	st.runDue(false) // siblings scripted to act "before the next consumer is invoked"
-	h := d
-	st.handles[c] = &h
 	st.order = append(st.order, c)
-	st.emit(event{Ev: "deliver", C: &c})
+	st.deliver(c, d)
 	if st.sc.Sync[c-1] {
 		st.mutateVia(c)
 	}
@@ -202,19 +107,16 @@ func (st *runState[T, C]) onConsume(c int, d T) error {
 type consumerError struct{ c int }
 
 func (e consumerError) Error() string { return fmt.Sprintf("consumer %d failed", e.c) }
-func failErr(c int) error            { return consumerError{c} }
+func failErr(c int) error             { return consumerError{c} }
 
 func runScenario[T any, C capser](ops sigOps[T, C], sc scenario, out *json.Encoder) {
-	st := &runState[T, C]{ops: ops, sc: sc, out: out, objs: map[uintptr]int{}}
-	st.handles = make([]*T, sc.N+2)
-	st.returned = make([]bool, sc.N+2)
-	st.nmut = make([]int, sc.N+2)
-	st.asyncDue = make([]bool, sc.N+2)
-	st.src = ops.build(sc.PV)
+	src := ops.base.build(sc.PV)
 	if sc.RoIn {
-		ops.markRO(st.src)
+		ops.base.markRO(src)
 	}
-	st.objID(st.src) // object 0 = the caller's
+	st := &runState[T, C]{recorder: newRecorder(ops.base, sc.N, out, src), sc: sc}
+	st.returned = make([]bool, sc.N+2)
+	st.asyncDue = make([]bool, sc.N+2)
 
 	cons := make([]C, 0, sc.N+1)
 	for c := 1; c <= sc.N; c++ {
@@ -257,7 +159,7 @@ func runScenario[T any, C capser](ops sigOps[T, C], sc scenario, out *json.Encod
 	sent := make([]string, sc.N)
 	pre := make([][]int, sc.N)
 	for i := range sent {
-		sent[i] = digest(ops.bytes(st.src))
+		sent[i] = digest(ops.base.bytes(st.src))
 		pre[i] = []int{}
 	}
 	st.emit(event{Ev: "reset", ID: &sc.ID, Sig: sc.Sig, Via: sc.Via, N: &sc.N, Mut: sc.Mut, Fail: sc.Fail,
@@ -292,8 +194,7 @@ func must[T any](v T, err error) T {
 }
 
 var logsOps = sigOps[plog.Logs, consumer.Logs]{
-	name: "logs", build: buildLogs, bytes: bytesLogs, mutate: mutateLogs, signal: pipeline.SignalLogs,
-	isRO: func(d plog.Logs) bool { return d.IsReadOnly() }, markRO: func(d plog.Logs) { d.MarkReadOnly() },
+	base: logsBase, signal: pipeline.SignalLogs,
 	newCons: func(f func(context.Context, plog.Logs) error, m bool) consumer.Logs {
 		return must(consumer.NewLogs(f, consumer.WithCapabilities(consumer.Capabilities{MutatesData: m})))
 	},
@@ -306,8 +207,7 @@ var logsOps = sigOps[plog.Logs, consumer.Logs]{
 }
 
 var metricsOps = sigOps[pmetric.Metrics, consumer.Metrics]{
-	name: "metrics", build: buildMetrics, bytes: bytesMetrics, mutate: mutateMetrics, signal: pipeline.SignalMetrics,
-	isRO: func(d pmetric.Metrics) bool { return d.IsReadOnly() }, markRO: func(d pmetric.Metrics) { d.MarkReadOnly() },
+	base: metricsBase, signal: pipeline.SignalMetrics,
 	newCons: func(f func(context.Context, pmetric.Metrics) error, m bool) consumer.Metrics {
 		return must(consumer.NewMetrics(f, consumer.WithCapabilities(consumer.Capabilities{MutatesData: m})))
 	},
@@ -316,12 +216,13 @@ var metricsOps = sigOps[pmetric.Metrics, consumer.Metrics]{
 		r := connector.NewMetricsRouter(cm)
 		return r, r.Consumer
 	},
-	consume: func(c consumer.Metrics, ctx context.Context, d pmetric.Metrics) error { return c.ConsumeMetrics(ctx, d) },
+	consume: func(c consumer.Metrics, ctx context.Context, d pmetric.Metrics) error {
+		return c.ConsumeMetrics(ctx, d)
+	},
 }
 
 var tracesOps = sigOps[ptrace.Traces, consumer.Traces]{
-	name: "traces", build: buildTraces, bytes: bytesTraces, mutate: mutateTraces, signal: pipeline.SignalTraces,
-	isRO: func(d ptrace.Traces) bool { return d.IsReadOnly() }, markRO: func(d ptrace.Traces) { d.MarkReadOnly() },
+	base: tracesBase, signal: pipeline.SignalTraces,
 	newCons: func(f func(context.Context, ptrace.Traces) error, m bool) consumer.Traces {
 		return must(consumer.NewTraces(f, consumer.WithCapabilities(consumer.Capabilities{MutatesData: m})))
 	},
@@ -334,8 +235,7 @@ var tracesOps = sigOps[ptrace.Traces, consumer.Traces]{
 }
 
 var profilesOps = sigOps[pprofile.Profiles, xconsumer.Profiles]{
-	name: "profiles", build: buildProfiles, bytes: bytesProfiles, mutate: mutateProfiles, signal: xpipeline.SignalProfiles,
-	isRO: func(d pprofile.Profiles) bool { return d.IsReadOnly() }, markRO: func(d pprofile.Profiles) { d.MarkReadOnly() },
+	base: profilesBase, signal: xpipeline.SignalProfiles,
 	newCons: func(f func(context.Context, pprofile.Profiles) error, m bool) xconsumer.Profiles {
 		return must(xconsumer.NewProfiles(f, consumer.WithCapabilities(consumer.Capabilities{MutatesData: m})))
 	},
